@@ -38,7 +38,7 @@ var tamperMsgs = []struct {
 const TamperPositions = 2048
 
 // TamperSweepRuns is the size of one complete sweep of the index space.
-const TamperSweepRuns = 3 * 7 * TamperPositions
+const TamperSweepRuns = 4 * 7 * TamperPositions
 
 type sessKeys struct {
 	id       [4]byte
@@ -47,25 +47,51 @@ type sessKeys struct {
 
 func scTamper(r *Run) {
 	i := r.Index
-	kind := int(i % 3) // 0 xor, 1 truncate, 2 replace
-	j := i / 3
+	slot := int(i % 4)
+	j := i / 4
 	m := tamperMsgs[j%7]
 	pos := int((j / 7) % TamperPositions)
 	sweep := int(j / (7 * TamperPositions))
-	kindName := []string{"xor", "truncate", "replace"}[kind]
+	// what the slot does: 0 = xor with the sweep's mask family; 1 = truncate to pos bytes (first sweep), afterwards
+	// xor with a seeded mask; 2 = replacement variants (pos < 4), otherwise xor with a seeded mask; 3 = the same
+	// mask on two neighbouring bytes
+	kind := 0 // 0 xor, 1 truncate, 2 replace, 3 xor two bytes
+	seeded := func() byte { return byte(1 + r.Intn("mask", 255)) }
 	var mask byte
 	switch sweep {
 	case 0:
 		mask = 1 << (uint(pos) % 8)
 	case 1:
-		mask = 0xff
-	case 2:
 		mask = 0x80
+	case 2:
+		mask = 0xff
 	case 3:
 		mask = 0x01
 	default:
-		mask = byte(1 + r.Intn("mask", 255))
+		mask = seeded()
 	}
+	switch slot {
+	case 1:
+		if sweep == 0 {
+			kind = 1
+		} else {
+			mask = seeded()
+		}
+	case 2:
+		if pos < 4 {
+			kind = 2
+		} else {
+			mask = seeded()
+		}
+	case 3:
+		kind = 3
+		if sweep == 0 {
+			mask = 0xff
+		} else if sweep == 1 {
+			mask = 1 << (uint(pos) % 8)
+		}
+	}
+	kindName := []string{"xor", "truncate", "replace", "xor2"}[kind]
 	r.SetCfg("alter", fmt.Sprintf("%s %s pos=%d mask=%02x sweep=%d", kindName, m.name, pos, mask, sweep))
 
 	n := NewNet(r)
@@ -157,6 +183,24 @@ func scTamper(r *Run) {
 			c.Data[pos] ^= mask
 			c.Mut = fmt.Sprintf("xor@%d^%02x", pos, mask)
 			applied = fmt.Sprintf("%s of %d bytes: byte %d xor %02x", m.name, len(d.Data), pos, mask)
+			n.Redeliver(c, n.Cfg.Latency)
+			return false
+		case 3:
+			if pos >= len(d.Data) || len(d.Data) < 2 {
+				return true
+			}
+			if !r.Fault("xor2", m.name, 1) {
+				return true
+			}
+			c := d.clone()
+			q := pos + 1
+			if q >= len(c.Data) {
+				q = pos - 1
+			}
+			c.Data[pos] ^= mask
+			c.Data[q] ^= mask
+			c.Mut = fmt.Sprintf("xor@%d,%d^%02x", pos, q, mask)
+			applied = fmt.Sprintf("%s of %d bytes: bytes %d and %d xor %02x", m.name, len(d.Data), pos, q, mask)
 			n.Redeliver(c, n.Cfg.Latency)
 			return false
 		case 1:
